@@ -261,6 +261,7 @@ def run(chk, repo, tier):
     chk.clause('C20-e', 'boundary reduces rows over axis 1 and columns over axis 0; rebin sums exactly the factor axes; centroid axes', 7)
     chk.clause('C20-f', 'drawn shapes lie in [0,1] and are binary without antialiasing', 8)
     chk.clause('C20-g', 'hex_ring yields 6*radius hexagons; hex_segments counts 1+3k(k+1)-|drop|', 3)
+    chk.clause('C20-h', 'hexagonal grid: axial -> cartesian map, (row, col) = (-y, x), pitch seg_radius + seg_gap/2', 4)
     chk.clause('C20-s', 'no helper mixes two different axes of one array (package-wide shape inference over util/helper/shape/segmented)', 4)
     chk.not_decided += ['translation/half-turn symmetry of drawn shapes, equal areas, non-overlap, border clearance']
     pad_rules(chk, repo)
@@ -270,4 +271,6 @@ def run(chk, repo, tier):
     shape_ranges(chk, repo, 'C20-f')
     from . import common
     common.shape_scan(chk, repo, 'C20-s', ['util', 'helper', 'shape', 'segmented'])
+    from .extra_rules import hex_grid_rules
+    hex_grid_rules(chk, repo, 'C20-h')
     segment_rules(chk, repo)
